@@ -283,3 +283,80 @@ pub fn split_atoms<const L: usize>() {
     assert!(pieces == nsep + 1 && total + nsep == L, "the pattern is split at every unescaped whitespace and nowhere else");
     kani::cover!(nsep == 1);
 }
+
+// ----------------------------------------------------------------------------------------------
+// C14: Atom::new_inner on text with non-ASCII characters (the code-point branch): escape
+// resolution, smart case, smart normalisation, stored needle.  Runs in the crate's
+// unicode-segmentation-off configuration (graphemes() == str::chars()), characters from the model
+// domain of charmodel.rs, character-level functions replaced by the model table.
+// ----------------------------------------------------------------------------------------------
+use crate::chars::verif_charmodel::{any_char, model_fold, model_is_upper, model_normalize};
+
+pub fn new_inner_unicode<const L: usize, const CASE: u8, const NORM: bool, const ESC: bool>() {
+    let mut cs = ['a'; L];
+    let mut k = 0;
+    let mut non_ascii = false;
+    while k < L {
+        cs[k] = any_char();
+        // '\\' and ' ' must be reachable; they are ASCII members of the domain
+        non_ascii = non_ascii || (cs[k] as u32) >= 128;
+        k += 1;
+    }
+    kani::assume(non_ascii); // otherwise the ASCII branch runs (not covered here)
+    let s: String = cs.iter().collect();
+    let case = match CASE {
+        0 => CaseMatching::Respect,
+        1 => CaseMatching::Ignore,
+        _ => CaseMatching::Smart,
+    };
+    let norm = if NORM { Normalization::Smart } else { Normalization::Never };
+    let atom = Atom::new_inner(&s, case, norm, AtomKind::Fuzzy, ESC, false);
+
+    // reference, from the statement: an escaped space becomes a literal space, everything else is
+    // kept literally; smart case ignores case exactly when no character is upper case; smart
+    // normalisation is on exactly when no character would itself be normalised; ignore-case
+    // needles are stored case-folded
+    let mut text = ['a'; L];
+    let mut n = 0;
+    let mut k = 0;
+    while k < L {
+        if ESC && cs[k] == '\\' && k + 1 < L && cs[k + 1] == ' ' {
+            text[n] = ' ';
+            n += 1;
+            k += 2;
+        } else {
+            text[n] = cs[k];
+            n += 1;
+            k += 1;
+        }
+    }
+    let mut any_upper = false;
+    let mut any_normalizable = false;
+    let mut k = 0;
+    while k < n {
+        any_upper = any_upper || model_is_upper(text[k]);
+        any_normalizable = any_normalizable || model_normalize(text[k]) != text[k];
+        k += 1;
+    }
+    let want_ignore_case = match CASE {
+        0 => false,
+        1 => true,
+        _ => !any_upper,
+    };
+    let want_normalize = NORM && !any_normalizable;
+    assert!(atom.ignore_case == want_ignore_case, "smart case ignores case exactly when the atom has no upper-case character");
+    assert!(atom.normalize == want_normalize, "smart normalisation is on exactly when the atom has no character that would itself be normalised");
+    match &atom.needle {
+        Utf32String::Unicode(got) => {
+            assert!(got.len() == n, "escaped spaces become one literal space, everything else is kept once");
+            let mut k = 0;
+            while k < n {
+                let want = if CASE == 1 { model_fold(text[k]) } else { text[k] };
+                assert!(got[k] == want, "the needle is exactly the unescaped text (case-folded under CaseMatching::Ignore)");
+                k += 1;
+            }
+        }
+        Utf32String::Ascii(_) => assert!(false, "text with non-ASCII characters is stored in code-point form"),
+    }
+    kani::cover!(n < L);
+}
